@@ -6,6 +6,7 @@ CONSTANTS
   MaxOps = 2
   OriginInId = FALSE
   PruneSlack = 0
+  GenDepth = 0
 INVARIANTS Safe DeadNotLive Complete
 VIEW View
 CHECK_DEADLOCK FALSE
